@@ -323,6 +323,22 @@ impl Engine {
         let log = self.w.log.borrow().clone();
         let n = self.w.state.borrow().len();
         for i in self.log_checked..log.len() {
+            // (iv) once an instance's readiness check has failed, nothing may touch that service
+            // until it has been re-created from its factory
+            let tok = match &log[i] {
+                Ev::PollReady { token, .. } | Ev::Call { token, .. } => Some(*token),
+                Ev::Create { .. } => None,
+            };
+            if let Some(t) = tok {
+                let failed_before = log[..i]
+                    .iter()
+                    .rev()
+                    .take_while(|e| !matches!(e, Ev::Create { token, .. } if *token == t))
+                    .any(|e| matches!(e, Ev::PollReady { token, ok: Some(false), .. } if *token == t));
+                if failed_before {
+                    self.flagv(Prop::C07, "C07/failed-instance-reused", format!("service {} was used ({:?}) after its readiness check had failed and before it was re-created from its factory", t, log[i]));
+                }
+            }
             match &log[i] {
                 Ev::Call { token, inst, conn } => {
                     self.calls_seen += 1;
